@@ -1049,9 +1049,26 @@ class Variable(CanBehaveLikeAVariable[T]):
     def _generate_combinations_for_child_vars_values_(
         self, sources: Optional[Dict[int, HashedValue]] = None
     ):
-        yield from generate_combinations(
-            {k: var._evaluate__(sources) for k, var in self._child_vars_.items()}
-        )
+        """
+        Generate the combinations of the values of the child variables, one child variable after the other, such that
+        each one is evaluated under the values chosen for the previous ones (the same unbound variable given for two
+        arguments has one value per combination, and a lazily produced domain is consumed only as far as needed).
+        """
+        child_vars = list(self._child_vars_.items())
+
+        def combinations_from(index, bindings, chosen):
+            if index == len(child_vars):
+                yield chosen
+                return
+            name, var = child_vars[index]
+            for result in var._evaluate__(bindings):
+                yield from combinations_from(
+                    index + 1,
+                    {**bindings, **result.bindings},
+                    {**chosen, name: result},
+                )
+
+        yield from combinations_from(0, sources or {}, {})
 
     def _process_output_and_update_values_(
         self, instance: Any, kwargs: Dict[str, OperationResult]
